@@ -56,8 +56,6 @@ inductive Val where
   | int (n : Int)
   /-- `pr.Decorations.Union` (text-decoration-line propagation), own value first -/
   | union (a b : Val)
-  /-- the Go code panics (nil parent dereference) -/
-  | panic
   deriving DecidableEq, Repr, Inhabited
 
 inductive Decl where
@@ -228,22 +226,20 @@ def fwNeedsParent : Val → Bool
   | .kw s => s = "bolder" || s = "lighter"
   | _ => false
 
-/-- `fontWeight`; `pw`: the parent's computed font-weight, `none` on the root (nil parentStyle) -/
-def fontWeightArith (T : Table) (n : Node) (v : Val) (pw : Option Val) : Val :=
+/-- `fontWeight`; `pw`: the parent's computed font-weight (on the root element: the initial value) -/
+def fontWeightArith (T : Table) (n : Node) (v : Val) (pw : Val) : Val :=
   match v with
   | .kw s =>
     if s = "normal" then .int 400
     else if s = "bold" then .int 700
     else if s = "bolder" then
       match pw with
-      | none => .panic
-      | some (.int w) => .int (mapGet T.bolder w)
-      | some _ => .comp T.pFontWeight n.id v
+      | .int w => .int (mapGet T.bolder w)
+      | _ => .comp T.pFontWeight n.id v
     else if s = "lighter" then
       match pw with
-      | none => .panic
-      | some (.int w) => .int (mapGet T.lighter w)
-      | some _ => .comp T.pFontWeight n.id v
+      | .int w => .int (mapGet T.lighter w)
+      | _ => .comp T.pFontWeight n.id v
     else .int 0                           -- default branch: value.Int of a keyword value
   | .int k => .int k
   | v => .comp T.pFontWeight n.id v
@@ -293,15 +289,19 @@ structure Ctx where
   /-- rootStyle.fontSize -/
   rootFS : Val
 
-/-- The value handed to the computer function, and whether the computer function runs at all
-    (`false`: the value is already a computed value — inherited, or an initial value outside
-    InitialNotComputed).  Includes the text-decoration and `page` special cases of `Get`. -/
+/-- cascadeValue, purely: the cascaded / inherited / initial value and whether the computer function
+    still has to run on it (`false`: the value is already a computed value — inherited from the
+    parent, or an initial value outside InitialNotComputed) -/
+def rawValue (T : Table) (c : Ctx) (n : Node) (p : Nat) : Val × Bool :=
+  match effDecl T c.par.isNone n p with
+  | .initial => (T.initVal p, T.initNotComputed p)
+  | .inherit => (match c.par with | some f => f p | none => T.initVal p, false)
+  | .value v => (v, true)
+
+/-- The value handed to the computer function, and whether the computer function runs at all.
+    `rawValue` plus the text-decoration and `page` special cases of `Get`. -/
 def preValue (T : Table) (c : Ctx) (n : Node) (p : Nat) : Val × Bool :=
-  let isRoot := c.par.isNone
-  let r : Val × Bool := match effDecl T isRoot n p with
-    | .initial => (T.initVal p, T.initNotComputed p)
-    | .inherit => (match c.par with | some f => f p | none => T.initVal p, false)
-    | .value v => (v, true)
+  let r := rawValue T c n p
   match c.par with
   | some f =>
     if T.tdKind p ≠ 0 then (textDecoration (T.tdKind p) r.1 (f p) (declOf n p).isSome, true)
@@ -317,6 +317,14 @@ def pfsArg (T : Table) (c : Ctx) (v : Val) : Val :=
     match c.par with
     | some f => f T.pFontSize
     | none => T.initVal T.pFontSize
+  else .init 0
+
+/-- the parent's font weight as `fontWeight` reads it (only for bolder / lighter) -/
+def pwArg (T : Table) (c : Ctx) (v : Val) : Val :=
+  if fwNeedsParent v then
+    match c.par with
+    | some f => f T.pFontWeight
+    | none => T.initVal T.pFontWeight
   else .init 0
 
 def rootArg (c : Ctx) (v : Val) : Val := if needsRoot v then c.rootFS else .init 0
@@ -342,8 +350,7 @@ def computePure (T : Table) (c : Ctx) (n : Node) (p : Nat) (v : Val) : Val :=
   match T.ck p with
   | .none => v
   | .fontSize => fontSizeArith T n v (pfsArg T c v) (rootArg c v)
-  | .fontWeight =>
-    fontWeightArith T n v (if fwNeedsParent v then c.par.map (· T.pFontWeight) else none)
+  | .fontWeight => fontWeightArith T n v (pwArg T c v)
   | .length => lengthPure T c n p v false
   | .pixelLength => if v = .kw "normal" then v else lengthPure T c n p v true
   | .wordSpacing => if v = .kw "normal" then .dim 0 uNone else lengthPure T c n p v false
@@ -399,10 +406,10 @@ def computed (T : Table) : List Node → Nat → Val
 def State := List Node → Nat → Option Val
 
 def State.set (s : State) (c : List Node) (p : Nat) (v : Val) : State :=
-  fun c' p' => if c' = c ∧ p' = p then some v else s c' p'
+  fun c' p' => if p' = p ∧ c' = c then some v else s c' p'
 
 def State.del (s : State) (c : List Node) (p : Nat) : State :=
-  fun c' p' => if c' = c ∧ p' = p then none else s c' p'
+  fun c' p' => if p' = p ∧ c' = c then none else s c' p'
 
 /-- freshly created styles: empty caches, except the values pre-set by newAnonymousStyle
     (only a style with a parent can be anonymous: computedFromCascaded) -/
@@ -523,9 +530,9 @@ def computeGet (T : Table) (g : Getters) (key : List Node) (n : Node) (p : Nat) 
   | .fontWeight =>
     if fwNeedsParent v then
       match g.par with
-      | some pg => let r := pg st T.pFontWeight; (r.1, fontWeightArith T n v (some r.2))
-      | none => (st, fontWeightArith T n v none)
-    else (st, fontWeightArith T n v none)
+      | some pg => let r := pg st T.pFontWeight; (r.1, fontWeightArith T n v r.2)
+      | none => (st, fontWeightArith T n v (T.initVal T.pFontWeight))
+    else (st, fontWeightArith T n v (.init 0))
   | .length => lengthGet T g key n p v false st
   | .pixelLength => if v = .kw "normal" then (st, v) else lengthGet T g key n p v true st
   | .wordSpacing => if v = .kw "normal" then (st, .dim 0 uNone) else lengthGet T g key n p v false st
